@@ -617,6 +617,15 @@ unsafe fn convert_udp_config(
     })
 }
 
+/// accessor for the verification harness in /verif (hook H7): the configuration the library
+/// receives for a configuration given through the binding layer
+#[cfg(dnp3_verif)]
+pub fn verif_convert_outstation_config(
+    config: ffi::OutstationConfig,
+) -> Result<OutstationConfig, ffi::ParamError> {
+    convert_outstation_config(config)
+}
+
 fn convert_outstation_config(
     config: ffi::OutstationConfig,
 ) -> Result<OutstationConfig, ffi::ParamError> {
